@@ -117,6 +117,50 @@ def opOf (j : Json) : Option TopoOp :=
   else if op == "rename" then some (.rename (clsOf (getStr j "kind")) (nidOfString (getStr j "nid")) (getStr j "name"))
   else none
 
+def strPairs (j : Json) (k : String) : List (String × String) :=
+  ((getArr j k).getD []).filterMap (fun x => match x with
+    | .arr #[.str a, .str b] => some (a, b)
+    | _ => none)
+
+def svcHandle (j : Json) (k : String) : Option SvcHandle :=
+  match j.getObjVal? k with
+  | .ok o => match o with
+    | .obj _ => some ⟨nidOfString (getStr o "nid"), getStr o "name", cacheOf o "cache"⟩
+    | _ => none
+  | _ => none
+
+def getBool (j : Json) (k : String) : Bool := (j.getObjValAs? Bool k).toOption.getD false
+
+/-- the requests of the second alphabet `Topo.XOp` (what `C09.atomic_xop` quantifies over) -/
+def xopOf (j : Json) : Option XOp :=
+  let op := getStr j "op"
+  let fl := flOf j
+  let u := getNat j "u"
+  if op == "add_child_interface" then
+    some (.addChildInterface fl u (nidOfString (getStr j "port")) (cacheOf j "cache") (getStr j "name") (optNid j "nid")
+      (optStr j "vlan") (strPairs j "vlan_tbl") (propArgs j "props"))
+  else if op == "remove_child_interface" then
+    some (.removeChildInterface (nidOfString (getStr j "port")) (cacheOf j "cache") (getStr j "name"))
+  else if op == "peer" then
+    some (.peer fl u (nidOfString (getStr j "svc")) (getStr j "sname") (cacheOf j "cache") (svcHandle j "other") (propArgs j "props"))
+  else if op == "unpeer" then some (.unpeer (cacheOf j "cache") (svcHandle j "other"))
+  else if op == "add_port_mirror" then some (.addPortMirror fl u (svcArgs j) (getBool j "to_ok") (getBool j "from_ok"))
+  else if op == "add_component_mt" then
+    some (.addComponentMT fl u (nidOfString (getStr j "parent"))
+      ⟨getStr j "name", optNid j "nid", optStr j "ctype", optStr j "model", optNid j "ns_nid",
+       (getArr j "if_nids").map (·.filterMap (fun x => x.getStr?.toOption.map nidOfString)),
+       (j.getObjValAs? Nat "n_labels").toOption, propArgs j "props"⟩ (getStr j "mt_model", getStr j "mt_type"))
+  else none
+
+def finishX (r : Except Err OutX × Topo) : Topo × Json :=
+  match r with
+  | (.ok a, s) => (s, Json.arr #[Json.str "ok", Json.mkObj [
+      ("ret", match a.ret with | some n => Json.str (nidToString n) | none => Json.null),
+      ("cache", match a.cache with | some c => cacheJson c | none => Json.null),
+      ("cache2", match a.cache2 with | some c => cacheJson c | none => Json.null),
+      ("snap", snapJson s)]])
+  | (.error e, s) => (s, Json.arr #[Json.str "err", Json.str e.toWire, snapJson s])
+
 def outRet (o : Out) : Json := match o.ret with | some n => nidJ n | none => Json.null
 def outCache (o : Out) : Json := match o.cache with | some c => cacheJson c | none => Json.null
 
@@ -126,6 +170,9 @@ def step (s : Topo) (j : Json) : Topo × Json :=
   match opOf j with
   | some o => finish (Topo.step o s) outRet outCache
   | none =>
+    match xopOf j with
+    | some x => finishX (Topo.stepX x s)
+    | none =>
     if op == "reset" then (Topo.empty, ok Json.null)
     else if op == "snap" then (s, ok (snapJson s))
     else if op == "views" then
